@@ -99,7 +99,10 @@ class Transport(object):
     pass
 
   def loseConnection(self):
-    self.closes.append((len(self.factory.queue), bool(getattr(self.factory, '_stop_requested', False))))
+    # (queued datapoints, stop requested?, accepted datapoints not yet written -- counts a batch that was
+    # taken from the queue but has not reached the transport yet)
+    self.closes.append((len(self.factory.queue), bool(getattr(self.factory, '_stop_requested', False)),
+                        len(getattr(self.factory, '_unwritten', ()))))
 
   def write(self, data):
     self.written.append(data)
@@ -156,6 +159,7 @@ def run_sequence(C, cfg, seq, stop):
   hard = C.SEND_QUEUE_HARD_MAX
   low = C.SEND_QUEUE_LOW_WATERMARK
   ref = deque()
+  f._unwritten = ref
   closes = []
   st = {'p': None, 'n': 0}
   connector = Connector()
@@ -265,8 +269,9 @@ def run_sequence(C, cfg, seq, stop):
       raise Fail('order_exactly_once', 'at quiescence the queue is %r; accepted and not yet written / re-routed: %r' % (list(f.queue), list(ref)))
     p = st['p']
     connected = p is not None and p.connected and f.connectedProtocol is p
-    if not cfg.get('ratio') and any(n != 0 for (n, after_stop) in closes if after_stop):     # (a quality reset also closes the connection)
-      raise Fail('stop_after_drain', 'after the orderly stop was requested a connection was closed with %r datapoints still queued' % ([n for (n, a) in closes if n and a],))
+    if not cfg.get('ratio') and any(n != 0 or u != 0 for (n, after_stop, u) in closes if after_stop):     # (a quality reset also closes the connection)
+      raise Fail('stop_after_drain', 'after the orderly stop was requested a connection was closed with datapoints still queued / taken but not yet written: %r' % (
+        [(n, u) for (n, a, u) in closes if a and (n or u)],))
     if connected and not p.paused and len(f.queue) > 0:
       raise Fail('delivered_at_quiescence', 'connected, not paused, all timers fired, but %d datapoints stay queued' % len(f.queue))
     if sig['full'] and len(f.queue) < low:
@@ -395,4 +400,9 @@ CLAUSE_TO_IDS = {
 
 
 if __name__ == '__main__':
-  main()
+  import os as _os
+  sys_path_dir = _os.path.dirname(_os.path.abspath(__file__))
+  import sys as _sys
+  _sys.path.insert(0, sys_path_dir)
+  from _guard import run_guarded
+  run_guarded(main, _os.path.basename(__file__))
